@@ -327,8 +327,15 @@ def run_group(pkg, harnesses, feature_args, jobs, timeout, rss_gb, log_dir, tag)
             return h.name, {"status": "inconclusive", "reason": "harness not found in kani metadata", "failed": [], "checks": 0,
                             "proved": 0, "covers_sat": 0, "covers_unsat": 0, "solver_s": 0.0, "symex_s": 0.0}
         return h.name, verify_one(md, h.unwind, h.solver, timeout, rss_gb, log_dir, getattr(h, "rec_limit", None))
+    done = 0
+    from concurrent.futures import as_completed
     with ThreadPoolExecutor(max_workers=jobs) as ex:
-        for name, r in ex.map(work, harnesses):
+        futs = [ex.submit(work, h) for h in harnesses]
+        for fu in as_completed(futs):
+            name, r = fu.result()
             results[name] = r
+            done += 1
+            if os.environ.get("VERIF_PROGRESS", "1") != "0":
+                print("  [%d/%d] %s: %s %s (%.0fs)" % (done, len(harnesses), name, r["status"], (r.get("reason") or "")[:60], r.get("wall_s", 0)), flush=True)
     meta["verify_wall_s"] = round(time.time() - t0, 1)
     return results, meta
